@@ -185,30 +185,28 @@ impl PairHMM {
                         );
 
                     // gap in y
-                    let mut prob_gap_y = prob_emit_x
-                        + (
-                            // open gap
-                            self.gap_params.prob_gap_y + fm_prev[j_]
-                        );
+                    let mut prob_gap_y =
+                        // open gap
+                        self.gap_params.prob_gap_y + fm_prev[j_];
                     if self.gap_params.do_gap_y_extend {
                         prob_gap_y = prob_gap_y.ln_add_exp(
                             // extend gap
                             self.gap_params.prob_gap_y_extend + fx_prev[j_],
                         );
                     }
+                    let prob_gap_y = prob_emit_x + prob_gap_y;
 
                     // gap in x
-                    let mut prob_gap_x = emission_params.prob_emit_y(j)
-                        + (
-                            // open gap
-                            self.gap_params.prob_gap_x + fm_curr[j_minus_one]
-                        );
+                    let mut prob_gap_x =
+                        // open gap
+                        self.gap_params.prob_gap_x + fm_curr[j_minus_one];
                     if self.gap_params.do_gap_x_extend {
                         prob_gap_x = prob_gap_x.ln_add_exp(
                             // extend gap
                             self.gap_params.prob_gap_x_extend + fy_curr[j_minus_one],
                         );
                     }
+                    let prob_gap_x = emission_params.prob_emit_y(j) + prob_gap_x;
 
                     // calculate minimal number of mismatches
                     let min_edit_dist = if max_edit_dist.is_some() {
